@@ -10,6 +10,19 @@ BASELINE = ("cd /repo && /venv/bin/python -m pytest -ra -q -p no:cacheprovider -
 
 # id -> (category, technique, level text, level note, design ref)
 CHECKS = {
+    "C18": ("exploration",
+            "harness-owned deterministic scheduler: bounded exhaustive DFS over schedules (choice sequences) + "
+            "Hypothesis-drawn programs and schedules, compared with a single-threaded reference",
+            "The library's threading name and its shared loaded/loading tables are replaced inside the test "
+            "process by a scheduler and instrumented tables, so that every table access, thread start, join and "
+            "lock acquisition is a scheduling point and the interleaving is a generated input. For each include "
+            "graph x caller program x cache state of a fixed list all schedules with <= 2 (quick) / 3 (thorough) "
+            "preemptions are enumerated; Hypothesis adds random programs and longer choice sequences. Every "
+            "load must equal the single-threaded reference, nothing may raise, deadlock or exceed the step "
+            "bound, cached objects must stay identical, failed fetches must not touch the cache.",
+            "Interleavings at table/thread-operation granularity only (not inside CPython, lxml or file I/O); "
+            "bounded-step liveness; real locks found on the library's tables are swapped for scheduler-aware ones.",
+            "DESIGN.md section 5, C18"),
     "C19": ("exploration",
             "Hypothesis-generated histories of default / custom validations, object creation, cardinality "
             "changes and saves/loads; unchanged-snapshot, repeatability (incl. subprocess differential with "
